@@ -18,6 +18,10 @@ open EpgVerif.Props.C20
 #print axioms badDiffusion_vector
 #print axioms badDiffusion_matrix
 #print axioms badDecl_iff
+#print axioms expandAll_mem
+#print axioms expandAll_symm
+#print axioms order2_true_never_rejected
+#print axioms expandAll_diagonal
 #print axioms badSequence_iff
 #print axioms badSeqVars_iff
 #print axioms pulseTooLarge_iff
